@@ -213,7 +213,7 @@ struct fdent {
     unsigned mode;
 };
 
-enum { A_FAULT = 1, A_SHORT, A_KILL, A_CLONEOK, A_NOTE, A_RETVAL, A_HOLD };
+enum { A_FAULT = 1, A_SHORT, A_KILL, A_CLONEOK, A_NOTE, A_RETVAL, A_HOLD, A_TRUNC };
 enum { L_ONE = 1, L_MINUS1, L_HALF, L_RAND, L_CAP };
 
 struct rule {
@@ -222,6 +222,7 @@ struct rule {
     int have_path; char path[PATHMAX];
     int have_under; char under[PATHMAX];
     int have_suffix; char suffix[PATHMAX];
+    char target[PATHMAX];   /* A_TRUNC: the file the supervisor truncates to `retval` bytes when the rule fires */
     unsigned long iocmd; int have_iocmd;
     int nth;     /* exact occurrence (1-based); 0 = any */
     int from;    /* occurrences >= from */
@@ -485,6 +486,7 @@ static void parse_rule(char *line)
         else if (!strcmp(k, "path")) { if (unhex(v, r->path, sizeof r->path)) die("bad hex"); r->have_path = 1; }
         else if (!strcmp(k, "under")) { if (unhex(v, r->under, sizeof r->under)) die("bad hex"); r->have_under = 1; }
         else if (!strcmp(k, "suffix")) { if (unhex(v, r->suffix, sizeof r->suffix)) die("bad hex"); r->have_suffix = 1; }
+        else if (!strcmp(k, "target")) { if (unhex(v, r->target, sizeof r->target)) die("bad hex"); }
         else if (!strcmp(k, "iocmd")) { r->iocmd = strtoul(v, NULL, 0); r->have_iocmd = 1; }
         else if (!strcmp(k, "nth")) r->nth = atoi(v);
         else if (!strcmp(k, "from")) r->from = atoi(v);
@@ -505,6 +507,7 @@ static void parse_rule(char *line)
             else if (!strcmp(v, "note")) r->action = A_NOTE;
             else if (!strcmp(v, "retval")) r->action = A_RETVAL;
             else if (!strcmp(v, "hold")) r->action = A_HOLD;
+            else if (!strcmp(v, "trunc")) r->action = A_TRUNC;
             else die("bad action %s", v);
         } else if (!strcmp(k, "len")) {
             if (!strcmp(v, "one")) r->lenpol = L_ONE;
@@ -832,6 +835,11 @@ static int apply_rules_enter(struct thr *t, struct user_regs_struct *regs, const
         case A_NOTE:
             p->rule = i; r->applied++; *act = "note"; *rid = r->id;
             if (!r->when_exit) r->done++;
+            break;
+        case A_TRUNC:
+            /* interference from outside the process: another program truncates `target` just before this call runs */
+            p->rule = i; *act = "trunc"; *rid = r->id;
+            if (truncate(r->target, (off_t)r->retval) == 0) r->applied++;
             break;
         case A_HOLD:
             /* gate: this call may not start before rule `until` has completed `count` times */
